@@ -93,7 +93,7 @@ func conflictSet(i int64, seed int64) []file {
 				b.WriteString("\n")
 				line++
 			}
-			fmt.Fprintf(&b, "  leaf l%d { type %s; %s }\n", q, pick("string", "nosuch"+fmt.Sprint(q), "uint8 { range \"300..400\"; }"), pick("", "config maybe;", "mandatory perhaps;"))
+			fmt.Fprintf(&b, "  leaf l%d { type %s %s }\n", q, pick("string;", "nosuch"+fmt.Sprint(q)+";", "uint8 { range \"300..400\"; }"), pick("", "config maybe;", "mandatory perhaps;"))
 			line++
 		}
 		b.WriteString("}\n")
